@@ -76,3 +76,16 @@ Theorem C04_mdet_surf :
 Proof. exact mdet_surf. Qed.
 Print Assumptions C04_mdet_surf.
 
+Theorem C04_focal_from_matrix :
+  forall (pobj : psurf XOps) (psrest : list (psurf XOps)) (aobj : asurf) 
+         (asrest : list asurf) (z1 : R),
+       Forall2 wf_surf (pobj :: psrest) (aobj :: asrest) ->
+       a_obj aobj = true ->
+       asrest <> nil ->
+       pos (O:=XOps) (pobj :: psrest) 1 = Fin z1 ->
+       let m := sysmat (aobj :: asrest) (z1 - 1) in
+       mc m <> 0%R ->
+       f2_signed (pobj :: psrest) = Fin (-1 / mc m) /\ F2 (pobj :: psrest) = Fin (- ma m / mc m).
+Proof. exact focal_from_matrix. Qed.
+Print Assumptions C04_focal_from_matrix.
+
